@@ -306,9 +306,9 @@ func fixedCases() []corr.Case {
 	var out []corr.Case
 	// witnesses
 	out = append(out,
-		// the replay of the empty-send defect (Lean: witness_emptySend_quits)
+		// the replay of the empty-send defect repaired by 2279fa4 (Lean: witness_emptySend_quits); passes since the fix
 		mk("witness", "init 1 pipe", "conn", "hold 0", "send 0 6161", "send 0 -", "send 0 6262", "close 0", "drain 0"),
-		// the mutation witnesses of Props/C16 (hold on today's tree)
+		// the scripts of the mutation witnesses of Props/C16 (the property holds on them on the unchanged tree)
 		mk("witness", "init 1 pipe", "conn", "hold 0", "send 0 01", "send 0 02", "close 0", "drain 0"),
 		mk("witness", "init 1 pipe", "conn", "close 0"),
 		mk("witness", "init 1 pipe", "conn", "conn", "conn"),
